@@ -124,8 +124,12 @@ func c15Bls[
 		return m
 	}
 
-	// constructors admit exactly the non-identity subgroup points
-	for _, p := range badSG[:1] {
+	// constructors admit exactly the non-identity subgroup points (once per key-size variant)
+	newSGs := badSG[:1]
+	if mode != bls.Basic && !c.Thorough() {
+		newSGs = nil
+	}
+	for _, p := range newSGs {
 		out := safely(func() string {
 			if _, err := bls.NewSignature[SG, SGFE, PK, PKFE, E, S](p, nil); err != nil {
 				return "err"
@@ -141,7 +145,11 @@ func c15Bls[
 		})
 		c.Emit(fmt.Sprintf("bls.new %s %s", sc, sgStr(p)), out)
 	}
-	for _, p := range []PK{badPK[0], keyGroup.OpIdentity(), keyGroup.Generator()} {
+	newPks := []PK{badPK[0], keyGroup.OpIdentity(), keyGroup.Generator()}
+	if mode != bls.Basic && !c.Thorough() {
+		newPks = nil
+	}
+	for _, p := range newPks {
 		out := safely(func() string {
 			if _, err := bls.NewPublicKey[PK, PKFE, SG, SGFE, E, S](p); err != nil {
 				return "err"
